@@ -16,7 +16,7 @@
 
 struct op { const char *name; void (*fn)(int nt, char **t); };
 
-extern int in_lib;
+extern volatile int in_lib;
 extern long long clk_sec, clk_nsec;
 extern int clk_calls;
 extern unsigned char rnd_pattern;
